@@ -1,7 +1,8 @@
 """C35 Job lifecycle leaves the process and the cache directory consistent (E5b single-fault enumeration + E2 histories).
 
 Part 1 - single faults.  Jobs {python ok, python raising, shell echo (script that logs and echoes)} are submitted once
-through Submitter(worker="debug") on a fresh cache root with logging TaskHooks installed, with provenance auditing
+through Submitter(worker="debug") with logging TaskHooks installed - on a fresh cache root, and as a rerun=True over the
+job directory of a clean earlier submission (adds the removal of the old directory to the run path) -, with auditing
 off and on (AuditFlag.PROV, counting FileMessenger writing OUTSIDE the cache root).  Exactly one fault is injected per
 run, and the fault space is enumerated completely:
   * none                                     (reference run, numbers the fault points below)
@@ -46,6 +47,7 @@ MUTATIONS = {"open", "os.mkdir", "os.remove", "os.rename", "os.rmdir", "os.link"
              "shutil.rmtree", "os.utime", "os.chmod"}
 JOBS = ["py_ok", "py_raise", "sh_ok"]
 HOOKS = ["pre_run", "pre_run_task", "post_run_task", "post_run"]
+PRES = ["fresh", "rerun"]
 WATCHDOG_S = 60
 
 # ----------------------------------------------------------------------------- permanent audit hook with a switch
@@ -266,7 +268,10 @@ def judge(obs, fault):
 
 
 # ----------------------------------------------------------------------------- part 1: single faults
-def fault_case(part, job, fault, audit):
+def fault_case(part, job, fault, audit, pre="fresh"):
+    """pre = "fresh": the faulted submission runs on an empty cache root; pre = "rerun": a clean submission of the same
+    task comes first and the faulted one is a rerun=True over its job directory (adds the removal of the old directory
+    to the run path)"""
     from vt import tasks_c35 as T
     d = Path(tempfile.mkdtemp(dir=part.scratch))
     try:
@@ -275,7 +280,11 @@ def fault_case(part, job, fault, audit):
         home.mkdir()
         T.reset(d / "log")
         exe = T.write_script(part.scratch)
-        obs = submit(job, root, msgs, exe, fault=fault, audit=audit, home=home)
+        if pre == "rerun":
+            first = submit(job, root, msgs, exe, audit=audit, home=home)
+            if judge(first, None):
+                return None  # the clean first run already violates (reported by the fault-free case)
+        obs = submit(job, root, msgs, exe, fault=fault, audit=audit, home=home, rerun=pre == "rerun")
         return obs
     finally:
         os.chdir("/")
@@ -283,30 +292,33 @@ def fault_case(part, job, fault, audit):
 
 
 def fault_item(part, item):
-    job, fault, audit = item
-    obs = fault_case(part, job, fault, audit)
+    job, fault, audit, pre = item
+    obs = fault_case(part, job, fault, audit, pre)
+    if obs is None:
+        part.case(key=("fault", job, fault, audit, pre), nontrivial=False)
+        return
     injected = fault is not None and (fault in ("body", "collect") or any(l.startswith("fault ") for l in obs["log"]))
     if fault is not None and not injected:
         # the fault point was not reached in this run (the path is shorter than in the reference run): still a run
         part.coverage["fault_points_not_reached"] = part.coverage.get("fault_points_not_reached", 0) + 1
-    part.case(key=("fault", job, fault, audit), nontrivial=bool(injected))
-    case = dict(part="fault", job=job, fault=fault, audit=audit)
+    part.case(key=("fault", job, fault, audit, pre), nontrivial=bool(injected))
+    case = dict(part="fault", job=job, fault=fault, audit=audit, pre=pre)
     v = judge(obs, fault)
     if v:
-        part.violation(v[0], case, v[1])
+        part.violation(v[0], case, ("rerun over a finished job directory: " if pre == "rerun" else "") + v[1])
     part.sample(dict(case, outcome=obs["outcome"], fired=obs["fired"], log=obs["log"]), cap=3)
 
 
 def reference_counts(ctx):
-    """fault points per (job, audit): number of audited FS events and number of messenger sends of the clean run"""
+    """fault points per (job, audit, pre): number of audited FS events and of messenger sends of the clean run"""
     from vt.runner import Part
     part = Part(scratch=ctx.scratch)
     pts = {}
-    for job in JOBS + ["py_ok/body", "py_ok/collect", "sh_ok/body", "sh_ok/collect"]:
-        j, _, f = job.partition("/")
+    for job in JOBS:
         for audit in (False, True):
-            obs = fault_case(part, j, f or None, audit)
-            pts[(job, audit)] = (obs["fs_events"], obs["sends"])
+            for pre in PRES:
+                obs = fault_case(part, job, None, audit, pre)
+                pts[(job, audit, pre)] = (obs["fs_events"], obs["sends"]) if obs else (0, 0)
     return pts
 
 
@@ -390,17 +402,18 @@ def run(ctx):
     items = []
     for job in JOBS:
         for audit in (False, True):
-            faults = [None] + [f"hook:{h}" for h in HOOKS]
-            if job != "py_raise":
-                faults += ["body", "collect"]
-            nfs = pts[(job, audit)][0]
-            faults += [f"fs:{k}" for k in range(nfs)]
-            if audit:
-                faults += [f"send:{k}" for k in range(1, pts[(job, True)][1] + 1)]
-            items += [("fault", job, f, audit) for f in faults]
+            for pre in PRES:
+                faults = [None] + [f"hook:{h}" for h in HOOKS]
+                if job != "py_raise" and pre == "fresh":
+                    # realised through the task inputs (another checksum), so there is no "rerun" variant of them
+                    faults += ["body", "collect"]
+                nfs, nsend = pts[(job, audit, pre)]
+                faults += [f"fs:{k}" for k in range(nfs)]
+                faults += [f"send:{k}" for k in range(1, nsend + 1)]
+                items += [("fault", job, f, audit, pre) for f in faults]
     # (a file-system fault on the failing path of an ok job - body/collection raises AND one FS fault - would be a
     # double fault: not enumerated; the failing path with FS faults is covered by the py_raise job)
-    ctx.coverage["fault_points"] = {f"{j}/audit={a}": dict(fs_events=v[0], sends=v[1]) for (j, a), v in pts.items()}
+    ctx.coverage["fault_points"] = {f"{j}/audit={a}/{p}": dict(fs_events=v[0], sends=v[1]) for (j, a, p), v in pts.items()}
     nfault = len(items)
     # (alphabet of jobs, depth bound, audit)
     plans = [(JOBS, 4, False), (JOBS, 3, True)]
@@ -436,7 +449,7 @@ def replay(ctx, case):
     from vt import tasks_c35 as T
     part = Part(scratch=ctx.scratch)
     if case["part"] == "fault":
-        fault_item(part, (case["job"], case["fault"], case["audit"]))
+        fault_item(part, (case["job"], case["fault"], case["audit"], case.get("pre", "fresh")))
     else:
         d = Path(tempfile.mkdtemp(dir=ctx.scratch))
         root, msgs, home = d / "cache", d / "msgs", d / "home"
